@@ -591,6 +591,7 @@ impl TulispValue {
             if !val.null() {
                 *self = TulispValue::List {
                     cons: val
+                        .deep_copy()?
                         .as_list_cons()
                         .unwrap_or_else(|| Cons::new(val, TulispObject::nil())),
                     ctxobj: None,
